@@ -439,7 +439,9 @@ func (w *World) Make(kind string) ([]byte, string) {
 			{fsm.ParamSpaceVal, fsm.ParamStakePercentForSubsidizedCommittee, uint64(1 + rng.Intn(100))},
 			{fsm.ParamSpaceGov, "daoRewardPercentage", []uint64{0, 100, 1, uint64(rng.Intn(101))}[rng.Intn(4)]}, // boundary values often
 			{fsm.ParamSpaceFee, "sendFee", uint64(1 + rng.Intn(20000))},
-			{fsm.ParamSpaceGov, "daoRewardPercentage", uint64(rng.Intn(2)) * 100}, // the two ends of the legal range
+			{fsm.ParamSpaceGov, "daoRewardPercentage", uint64(rng.Intn(2)) * 100},           // the two ends of the legal range
+			{fsm.ParamSpaceVal, fsm.ParamMaxCommitteeSize, uint64(1 + rng.Intn(3))},         // caps that cut into the population
+			{fsm.ParamSpaceVal, fsm.ParamMaximumDelegatesPerCommittee, uint64(rng.Intn(3))}, // 0 = unlimited
 			{fsm.ParamSpaceVal, fsm.ParamEarlyWithdrawalPenalty, uint64(rng.Intn(2)) * 100},
 		}
 		c := opts[rng.Intn(len(opts))]
